@@ -455,3 +455,47 @@ Corollary committed_side_is_last_commit R l d' imgs :
 Proof.
   intros H. destruct (committed_is_last_image _ _ _ _ _ H) as (new & -> & ->). done.
 Qed.
+
+(** ** Behind a CacheDB: one flush of the cache is exactly one commit of the backend
+    (KV/Model.v [cache_flush], chain/db.go:278-345: all puts, then all deletes, then a single
+    backend Flush) — no prefix of the backend steps of a cache flush commits, so the images
+    the backend commits are those of the store's flushes, i.e. block-boundary images. *)
+Lemma sp_put_del_com s o :
+  (∃ b k v, o = Put b k v) ∨ (∃ b k, o = Del b k) → KV.Model.com (back_apply sp_backend s o) = KV.Model.com s.
+Proof.
+  unfold back_apply. cbn.
+  intros [(b & k & v & ->)|(b & k & ->)]; cbn; by destruct (KV.Model.cur s !! b).
+Qed.
+
+Lemma flush_bucket_puts_com d b kvs : ∀ s,
+  KV.Model.com (flush_bucket_puts sp_backend d b s kvs) = KV.Model.com s.
+Proof.
+  unfold flush_bucket_puts.
+  induction kvs as [|kv r IH]; intros s; cbn [fold_left]; [done|].
+  rewrite IH. case_bool_decide; [done|]. apply sp_put_del_com. left. eauto.
+Qed.
+
+Lemma flush_bucket_dels_com b ks : ∀ s,
+  KV.Model.com (flush_bucket_dels sp_backend b s ks) = KV.Model.com s.
+Proof.
+  unfold flush_bucket_dels.
+  induction ks as [|k r IH]; intros s; cbn [fold_left]; [done|].
+  rewrite IH. apply sp_put_del_com. right. eauto.
+Qed.
+
+Theorem cache_flush_one_commit (c : cache sp_backend) :
+  ∃ s2, cback (cache_flush sp_backend c) = back_apply sp_backend s2 Flush ∧
+        KV.Model.com s2 = KV.Model.com (cback c) ∧
+        KV.Model.com (cback (cache_flush sp_backend c)) = KV.Model.cur s2.
+Proof.
+  unfold cache_flush. eexists. split; [reflexivity|]. split; [|done].
+  set (m := cmem c).
+  assert (∀ (l : list (N * gset N)) s,
+            KV.Model.com (fold_left (λ s bd, flush_bucket_dels sp_backend bd.1 s (elements bd.2)) l s) = KV.Model.com s) as Hd.
+  { induction l as [|x l IH]; intros s; cbn [fold_left]; [done|]. by rewrite IH, flush_bucket_dels_com. }
+  assert (∀ (l : list (N * bkt)) s,
+            KV.Model.com (fold_left (λ s bp, flush_bucket_puts sp_backend (subd (dels m) bp.1) bp.1 s
+                                      (map_to_list bp.2)) l s) = KV.Model.com s) as Hp.
+  { induction l as [|x l IH]; intros s; cbn [fold_left]; [done|]. by rewrite IH, flush_bucket_puts_com. }
+  by rewrite Hd, Hp.
+Qed.
